@@ -952,44 +952,49 @@ class TrustRegion:
     def set_best_index(self):
         """
         Set the index of the best point.
-
-        The best point has the least merit value. Among the points whose merit
-        values equal the least one up to rounding errors, the one with the
-        least maximum constraint violation is chosen (then the one with the
-        least merit value, then the current best point).
         """
-        m_val = np.empty(self.models.npt)
-        r_val = np.empty(self.models.npt)
-        for k in range(self.models.npt):
-            x_val = self.models.interpolation.point(k)
-            m_val[k] = self.merit(
-                x_val,
-                self.models.fun_val[k],
-                self.models.cub_val[k, :],
-                self.models.ceq_val[k, :],
-            )
-            r_val[k] = self._pb.maxcv(
-                x_val,
-                self.models.cub_val[k, :],
-                self.models.ceq_val[k, :],
-            )
-        m_best = np.min(m_val)
+        best_index = self.best_index
+        m_best = self.merit(
+            self.x_best,
+            self.models.fun_val[best_index],
+            self.models.cub_val[best_index, :],
+            self.models.ceq_val[best_index, :],
+        )
+        r_best = self._pb.maxcv(
+            self.x_best,
+            self.models.cub_val[best_index, :],
+            self.models.ceq_val[best_index, :],
+        )
         tol = (
             10.0
             * EPS
             * max(self.models.n, self.models.npt)
             * max(abs(m_best), 1.0)
         )
-        best_index = self.best_index
-        if m_val[best_index] > m_best + tol:
-            best_index = int(np.argmin(m_val))
         for k in range(self.models.npt):
-            if m_val[k] <= m_best + tol and (
-                r_val[k] < r_val[best_index]
-                or r_val[k] == r_val[best_index]
-                and m_val[k] < m_val[best_index]
-            ):
-                best_index = k
+            if k != self.best_index:
+                x_val = self.models.interpolation.point(k)
+                m_val = self.merit(
+                    x_val,
+                    self.models.fun_val[k],
+                    self.models.cub_val[k, :],
+                    self.models.ceq_val[k, :],
+                )
+                r_val = self._pb.maxcv(
+                    x_val,
+                    self.models.cub_val[k, :],
+                    self.models.ceq_val[k, :],
+                )
+                if m_val < m_best or (m_val < m_best + tol and r_val < r_best):
+                    best_index = k
+                    m_best = m_val
+                    r_best = r_val
+                    tol = (
+                        10.0
+                        * EPS
+                        * max(self.models.n, self.models.npt)
+                        * max(abs(m_best), 1.0)
+                    )
         self._best_index = best_index
 
     def get_index_to_remove(self, x_new=None):
